@@ -245,7 +245,10 @@ def runCase (payload : String) : String :=
         let (inside, ownBlank) := insideFlags ast true
         let sign := hasSignStart ast
         let ev := if ev = "1" || ev = "3" then "1" else "0"
-        let post := hasUnstablePost ast txt || inside || hasPostfixAfterNewline ast
+        -- inside the class the printed text must at least PARSE (`*p`) unless a # comment swallows the rest of its
+        -- line or a composition access is pushed off the identifier's line
+        let mayNotParse := hasUnstablePost ast txt || hasPostfixAfterNewline ast || endsWithBareReturn ast
+        let post := hasUnstablePost ast txt || hasPostfixAfterNewline ast || inside
         let wild := post || ownBlank || hasPreComment ast || blockThenStatement ast
         -- cross-check of the expression-level model (the one the theorems are about)
         let (drift, xc) : Option String × Bool :=
@@ -266,7 +269,7 @@ def runCase (payload : String) : String :=
         | some d => d
         | none =>
           let eret := endsWithBareReturn ast
-          let rt := if post then "*" else if eret then "noparse" else if raw || mul || sign then "diff" else "ok"
+          let rt := if post then (if mayNotParse then "*" else "*p") else if eret then "noparse" else if raw || mul || sign then "diff" else "ok"
           let idem := if wild then "*" else if eret then "na" else if sign then "diff" else "ok"
           -- inside the classes with rt=diff the trees must agree modulo the known LOCAL difference (raw flag,
           -- product association); a merged statement (sign / parenthesis start) is a genuine difference
